@@ -62,7 +62,9 @@ ASSUMPTIONS = [
     'algorithms that ignore bounds (LS-*/TR-*) are compared with the unconstrained maximum',
 ]
 MIN_DISTINCT = {'quick': 800, 'thorough': 4000}
-CASE_TIMEOUT = 300
+CASE_TIMEOUT = 900
+
+RUN_TIMEOUT = 200  # seconds per estimation (forked child); a watchdog, never a verdict
 
 N_CASES = {'quick': 108, 'thorough': 600}
 
@@ -81,6 +83,7 @@ START_RATIO = 3.0  # |LL(start)| up to 3 |LL*| counts as an ordinary start
 # ---------------------------------------------------------------------------------------
 _CALLS: list = []
 _INSTALLED = False
+_CRUMB = None  # path of the breadcrumb file of the estimation that is running (set by the parent before the fork)
 
 
 def _install_hooks():
@@ -121,6 +124,27 @@ def _install_hooks():
 
     for k in list(opt.algorithms):
         opt.algorithms[k] = wrap(k, opt.algorithms[k])
+
+    # breadcrumb: the function object is asked for a value at a point that is not finite. Written to a file because
+    # the engine may take the whole process down right afterwards (seen: signal 11 when NaN parameters reach it
+    # with 2 threads), and the parent must still be able to say what kind of run crashed.
+    import biogeme.negative_likelihood as nl
+
+    def crumbed(method):
+        def with_crumb(self):
+            if _CRUMB and self.x is not None and not np.all(np.isfinite(self.x)):
+                try:
+                    with open(_CRUMB, 'a') as f:
+                        f.write('non-finite point handed to the likelihood\n')
+                except OSError:
+                    pass
+            return method(self)
+
+        with_crumb.__wrapped__ = method
+        return with_crumb
+
+    for name in ('_f', '_f_g', '_f_g_h'):
+        setattr(nl.NegativeLikelihood, name, crumbed(getattr(nl.NegativeLikelihood, name)))
     _INSTALLED = True
 
 
@@ -274,10 +298,16 @@ def run_case(case):
                 'oracle_constrained_argmax': dict(zip(free, c['x'].tolist())), 'binding_bounds': sorted(binding)})
     finals = {}  # algorithm -> final LL of the estimate() runs that reported convergence
     runs_info = []
+    import tempfile
+
+    global _CRUMB
+    _CRUMB = os.path.join(os.environ.get('BIOMON_WORKDIR') or tempfile.gettempdir(), f'c07_crumb_{os.getpid()}_{case["i"]}')
     for algo, mode in _plan(case):
+        if os.path.exists(_CRUMB):
+            os.remove(_CRUMB)
         # every estimation in its own forked child: after ONE engine-side error nothing in the process can be
         # trusted any more (sticky error flag; a later evaluation with 2 threads even segfaults)
-        out = run_forked(lambda _a, algo=algo, mode=mode: _one_run(ctx, algo, mode), None, CASE_TIMEOUT / 3)
+        out = run_forked(lambda _a, algo=algo, mode=mode: _one_run(ctx, algo, mode), None, RUN_TIMEOUT)
         tag = f'{algo}/{mode}'
         if out.get('timeout'):
             rec.c('run_timeouts')  # never a verdict; too many of them make the run inconclusive (finalize)
@@ -285,6 +315,12 @@ def run_case(case):
         if 'crash_signal' in out:
             if out['crash_signal'] == 9:
                 rec.inconc(f'{tag} killed by signal 9')
+            elif os.path.exists(_CRUMB) and algo in ('LS-newton', 'LS-BFGS', 'TR-newton', 'TR-BFGS'):
+                rec.c(f'raised_{algo}')
+                rec.violation('C07/unsafeguarded-algorithm-continues-from-non-finite-likelihood',
+                              f'[{tag}] the process died with signal {out["crash_signal"]} inside the engine after the algorithm went on from a '
+                              f'non-finite iterate (NaN parameters handed to the engine, {opts["number_of_threads"]} threads)',
+                              {'case': case, 'algorithm': algo, 'entry_point': mode, 'params': P, 'options': opts})
             else:
                 rec.violation(f'C07/native-crash-signal-{out["crash_signal"]}', f'[{tag}] process died with signal {out["crash_signal"]}',
                               {'case': case, 'algorithm': algo, 'entry_point': mode, 'params': P, 'options': opts})
@@ -304,6 +340,8 @@ def run_case(case):
             runs_info.append(info)
         if info.get('converged') and mode == 'estimate' and info.get('judged') and not info.get('capped'):
             finals[algo] = info['ll']
+    if os.path.exists(_CRUMB):
+        os.remove(_CRUMB)
     rec.info['runs'] = runs_info
     # all algorithms agree on the maximum value (among those that reported convergence and solve the same problem:
     # bound-capable ones solve the bounded problem, the others ignore the bounds)
@@ -384,9 +422,9 @@ def _one_run(ctx, algo, mode):
     pr.set_value('infeasible_cg', opts['infeasible_cg'], 'SimpleBounds')
     if opts['save_iterations']:
         # the default path reads/writes __<model>.iter in cwd: every run (a forked child) gets a fresh directory and stays there
-        d = os.path.join(os.environ.get('BIOMON_WORKDIR', os.getcwd()), f'c07_{os.getpid()}')
-        os.makedirs(d, exist_ok=True)
-        os.chdir(d)
+        import tempfile
+
+        os.chdir(tempfile.mkdtemp(prefix=f'c07_{case["i"]}_', dir=os.environ.get('BIOMON_WORKDIR', os.getcwd())))
     del _CALLS[:]
     unsafeguarded = algo in ('LS-newton', 'LS-BFGS', 'TR-newton', 'TR-BFGS')
     inject_nan_hessian = case.get('directed') == 'hessian_fallback'
